@@ -11,7 +11,7 @@ Definition shorten_orig (v len cap sp : N) : N * N := (v, N.min len cap).
 Definition shorten_fixed (v len cap sp : N) : N * N :=
   if len <=? cap then (v, len)
   else
-    let start := if v <=? sp then v + (sp - v) / cap * cap else v in
+    let start := if (v <=? sp) && (sp <? v + len) then v + (sp - v) / cap * cap else v in
     (start, N.min cap (v + len - start)).
 
 Theorem shorten_fixed_contains v len cap sp :
@@ -22,7 +22,8 @@ Proof.
   intros Hc Hlo Hhi. unfold shorten_fixed.
   destruct (len <=? cap) eqn:E.
   - apply N.leb_le in E. repeat split; lia.
-  - apply N.leb_gt in E. replace (v <=? sp) with true by (symmetry; apply N.leb_le; lia).
+  - apply N.leb_gt in E. replace ((v <=? sp) && (sp <? v + len)) with true
+      by (symmetry; apply andb_true_intro; split; [apply N.leb_le|apply N.ltb_lt]; lia).
     set (q := (sp - v) / cap).
     assert (Hq1 : q * cap <= sp - v) by (unfold q; nia).
     assert (Hq2 : sp - v < q * cap + cap) by (unfold q; nia).
@@ -34,7 +35,7 @@ Lemma shorten_fixed_below v len cap sp : sp < v -> cap < len -> shorten_fixed v 
 Proof.
   intros H Hl. unfold shorten_fixed.
   replace (len <=? cap) with false by (symmetry; apply N.leb_gt; lia).
-  replace (v <=? sp) with false by (symmetry; apply N.leb_gt; lia).
+  replace (v <=? sp) with false by (symmetry; apply N.leb_gt; lia). cbn [andb].
   f_equal. lia.
 Qed.
 
